@@ -29,7 +29,7 @@ def keep(part, x):
 
 def run(tier):
     ck = common.Check('C06', tier)
-    res = parts.run_parts(ck, tier, ir_parts=('ir_alloc', 'ir_noexcept', 'ir_pair', 'ir_size', 'ir_lifetime'),
+    res = parts.run_parts(ck, tier, ir_parts=('ir_alloc', 'ir_noexcept', 'ir_pair', 'ir_size', 'ir_lifetime', 'ir_ctor'),
                           rule_filter=lambda p, x: keep(p, x) and (p != 'ir_lifetime' or x.rule == 'R03.2'))
     from .. import irrules
     irrules.run_canaries(ck, {'ir_noexcept': [('R06.4', 'canary_swallow')], 'ir_size': [('R06.3', 'canary_size_first')],
